@@ -501,8 +501,29 @@ def c06(chk):
         chk.ob('C06.present', 'req.' + api, ('req.' + api) in seen,
                chk.key('req.' + api, 'C06.present', api, 'encoder-missing-or-never-succeeds'),
                'request encoder %s was not found or has no succeeding path' % api)
+    totality(chk, 'C06.total', ('request',), encs, 'request body')
     chk.floor('request encoder Ok leaves (plus reported unanalysable paths)', n + getattr(chk, 'unanalysable', 0), 17)
     chk.assumptions = ['routing information update: 0-7 entries (the encoder refuses more; refusal checked by C16)']
+
+
+def totality(chk, rule, kinds, encs, what):
+    """Inside the documented shapes (and with a buffer that is long enough) an encoder produces its packet - a path that
+    panics there produces none.  The feasibility argument is C16.c's, restricted to the encoders this property is about."""
+    prog = chk.an.prog
+    for enc in encs:
+        if enc.kind not in kinds or not in_scope(enc):
+            continue
+        oks = enc.ok_leaves()
+        for lf in enc.bad_leaves():
+            if lf.kind != 'panic':
+                continue            # unanalysable paths are reported by the body rule
+            chk.evals()
+            reason = panic_in_scope(enc, lf, oks)
+            fn, sp = local_site(prog, lf)
+            chk.ob(rule, leaf_id(enc, lf), reason is None,
+                   chk.key(enc.entry, rule, fn, 'panic:%s:%s' % (lf.panic[0].replace('call:core::panicking::', ''), lf.panic[1])),
+                   '%s produces no %s for arguments within the documented shapes: it panics (%s; %s)' % (enc.key, what, lf.panic[1], reason),
+                   site=sp, detail={'leaf': dump_leaf(lf, prog, heap=False), 'call_path': call_path(lf)})
 
 
 def c07(chk):
@@ -511,7 +532,8 @@ def c07(chk):
         '12): byte 9 = 0x00 (Rq 0, D 0, reserved 0), byte 10 = the command answered, byte 11 = the completion-code argument, then '
         'the response fields. Packed bytes are compared bit by bit, so every enum combination is covered at once; the EID byte '
         'must be the content of the response half\'s own EID cell. Message type lists are case-split 0..30 and vendor ID fields '
-        '0..7 by the interpreter, each length compared cell by cell.')
+        '0..7 by the interpreter, each length compared cell by cell. C07.total: no panic path of a response encoder is feasible '
+        'inside the documented shapes once the buffer is long enough (otherwise no body is produced for those arguments).')
     chk.rules_text = 'R-layout (bit level) on cells 9..len-2 of each response encoder; table agreement on argument enumerations'
     encs, n, seen = body_rule(chk, 'C07', ('response',), 'control response body')
     enum_tables(chk, 'C07')
@@ -519,6 +541,7 @@ def c07(chk):
         chk.ob('C07.present', 'resp.' + api, ('resp.' + api) in seen,
                chk.key('resp.' + api, 'C07.present', api, 'encoder-missing-or-never-succeeds'),
                'response encoder %s was not found or has no succeeding path' % api)
+    totality(chk, 'C07.total', ('response',), encs, 'response body')
     chk.floor('response encoder Ok leaves (plus reported unanalysable paths)', n + getattr(chk, 'unanalysable', 0), 25)
     chk.assumptions = ['0-30 message types, vendor ID field of 0-7 bytes (the documented shapes)',
                        'the fields are required for every completion code (the library writes them regardless; the statement constrains Success)']
@@ -534,6 +557,7 @@ def c08(chk):
         'data region, verbatim, directly after byte 8, followed by the PEC.')
     chk.rules_text = 'R-layout on cells 8..len-2 of vendor_defined and the generate_* writers; R-class on the format byte'
     encs, n, seen = body_rule(chk, 'C08', ('vendor', 'writer'), 'vendor / SPDM framing')
+    totality(chk, 'C08.total', ('vendor', 'writer'), encs, 'framed message')
     # message type byte (cell 8) for these writers
     _, rows = analysed(chk, report=False)
     for enc, lf, know, length, ordered, why in rows:
